@@ -170,6 +170,13 @@ def loader(ctx):
     positional_ctor(ctx, "R1.Locations-new-positional", LOC + "::new", LOC, {"stations": 1, "dead_head_trips": 2})
 
 
+def loader_subset(ctx, keep):
+    """run the loader rules and keep only obligations whose id contains one of `keep` (for sharing with other properties)"""
+    before = len(ctx.obligations)
+    loader(ctx)
+    ctx.obligations[before:] = [o for o in ctx.obligations[before:] if any(k in o.id for k in keep)]
+
+
 def getters(ctx):
     getter(ctx, "R1.getter.start_time", ND("start_time"), [field(ST, "departure"), field(MS, "start")], [field(ST, "arrival"), field(MS, "end")])
     getter(ctx, "R1.getter.end_time", ND("end_time"), [field(ST, "arrival"), field(MS, "end")], [field(ST, "departure"), field(MS, "start")])
